@@ -25,6 +25,10 @@ revert_e45de5a.diff C19
 revert_5d46fd1.diff C19
 revert_cdf4a1e.diff C13
 revert_4a4d402.diff C13
+revert_095947f.diff C15
+revert_e063a90.diff C15
+revert_6e180d2.diff C15
+c11_add_inventory_swaps_units.diff C11
 c02_capacity_reserved_after_ratio.diff C02
 c13_skip_forbidden_when_member_of.diff C13
 EOM
